@@ -167,13 +167,15 @@ type IssuedAddr struct {
 
 // Instance is one wallet process.
 type Instance struct {
-	Name string
-	W    *World
-	Disk *SimDisk
-	DB   *SimDB
-	WM   *masswallet.WalletManager
-	srv  *fakeServer
-	Cfg  *config.Config
+	// startSeen orders Start's return before a later Stop (see StartAsync, StopAsync)
+	startSeen sync.Mutex
+	Name      string
+	W         *World
+	Disk      *SimDisk
+	DB        *SimDB
+	WM        *masswallet.WalletManager
+	srv       *fakeServer
+	Cfg       *config.Config
 
 	Pending       []delivery
 	QuitClosed    bool
@@ -479,6 +481,10 @@ func (inst *Instance) StartAsync(errp *error) *G {
 		s.starting = inst
 		s.mu.Unlock()
 		err := inst.WM.Start()
+		// whoever stops the wallet later has seen Start return (a real
+		// synchronisation, visible to the race detector)
+		inst.startSeen.Lock()
+		inst.startSeen.Unlock()
 		if errp != nil {
 			*errp = err
 		}
